@@ -38,7 +38,9 @@ def run(ctx, cfg, fnpath, uninterpreted=None, inline=(), **kw):
     if fn is None:
         raise X.Unanalysable('anchor function %s not found' % fnpath)
     un = uninterpreted or (lambda p: not any(p.endswith(k) for k in inline))
+    hyps = kw.pop('hyps', None)
     ip = X.Interp(cr, uninterpreted=un, **kw)
+    ip.hyps = hyps
     st = ip.start_state(fn, arg_names=['a%d' % i for i in range(fn.arg_count)])
     outs = ip.run(st)
     ctx.absorb(ip, fnpath)
